@@ -161,6 +161,15 @@ func (t *treeTracer) dumpTree() {
 	t.emit(map[string]any{"ev": "tree", "nodes": recs})
 }
 
+func guardIntact(g []byte) bool {
+	for _, b := range g {
+		if b != 0xA5 {
+			return false
+		}
+	}
+	return true
+}
+
 // childrenOf reads the current children of a node from the live tree
 func childrenOf(m *mimetype.MIME) []*mimetype.MIME {
 	for _, n := range mimetype.VerifTree() {
@@ -183,6 +192,17 @@ func (t *treeTracer) detect(sample string, in []byte, limit int64, entry string,
 		t.hids[key] = hid
 	}
 	buf := exact(in)
+	var guard []byte
+	if entry == "Detect" && hid%2 == 0 {
+		// a sub-slice of a larger array owned by the caller: the bytes behind len(buf) are the caller's too
+		big := make([]byte, len(in)+32)
+		copy(big, in)
+		guard = big[len(in):]
+		for i := range guard {
+			guard[i] = 0xA5
+		}
+		buf = big[:len(in)]
+	}
 	t.consults = nil
 	t.leaf = 0
 	var res *mimetype.MIME
@@ -198,7 +218,7 @@ func (t *treeTracer) detect(sample string, in []byte, limit int64, entry string,
 		res, err = mimetype.DetectFile(p)
 	}
 	rec := &detectTrace{Ev: "detect", Hid: hid, Limit: limit, Len: len(hdr), Entry: entry, Sample: sample,
-		Consults: t.consults, Leaf: t.leaf, Err: err != nil, BufOK: bytes.Equal(buf, in), Params: []string{}, Recheck: [][2]int{}}
+		Consults: t.consults, Leaf: t.leaf, Err: err != nil, BufOK: bytes.Equal(buf, in) && guardIntact(guard), Params: []string{}, Recheck: [][2]int{}}
 	if rec.Consults == nil {
 		rec.Consults = [][2]int{}
 	}
